@@ -117,6 +117,7 @@ Proof.
   - (* Wake *) inversion Hstep; subst. unfold inv, upd; cbn. apply Forall_set_thread; auto.
   - (* SendIfOpen *) destruct (flag_set op s x); [|destruct (chan_closed op s c)];
       inversion Hstep; subst; unfold inv, upd; cbn; auto; apply Forall_set_thread; auto.
+  - (* Recv *) inversion Hstep; subst. unfold inv, upd; cbn. apply Forall_set_thread; auto.
 Qed.
 
 Lemma inv_reachable : forall s0 s, inv s0 -> reachable s0 s -> inv s.
